@@ -38,6 +38,19 @@ type a6 struct {
 	nObl    int
 	onlyPkg string // restrict the bounds scope to one package (C17)
 	rule    string // rule name override
+	// generalisation: other obligation generators over another scope (field widths, C02)
+	oblOf   func(fn *ssa.Function) []a6obl
+	scope   []*ssa.Function
+	rowKind string // kind of the reviewed lines in the table ("bounds" by default)
+	peel    bool   // prove on unconverted values (field-width goals)
+	failMsg func(o a6obl, fn *ssa.Function) string
+}
+
+func (a *a6) obligations(fn *ssa.Function) []a6obl {
+	if a.oblOf != nil {
+		return a.oblOf(fn)
+	}
+	return obligationsOf(fn)
 }
 
 func (a *a6) ruleName() string {
@@ -89,6 +102,9 @@ func runC05(c *Ctx) {
 }
 
 func (a *a6) scopeFuncs() []*ssa.Function {
+	if a.scope != nil {
+		return a.scope
+	}
 	if a.onlyPkg != "" {
 		var out []*ssa.Function
 		pk := a.p.Pkg(a.onlyPkg)
@@ -329,8 +345,9 @@ func (a *a6) bounds() {
 			}
 		}
 		pv := a.db.proverFor(fn)
+		pv.peelConv = a.peel
 		counts := map[string]int{}
-		for _, o := range obligationsOf(fn) {
+		for _, o := range a.obligations(fn) {
 			counts[o.kind]++
 			total++
 			okey := fmt.Sprintf("%s:%s#%d", FnName(fn), o.kind, counts[o.kind])
@@ -343,7 +360,7 @@ func (a *a6) bounds() {
 				return goals
 			})
 			if ok {
-				c.Pass(a.ruleName(), okey, pos, "in bounds: entailed by dominating checks")
+				c.Pass(a.ruleName(), okey, pos, "proved: entailed by dominating checks, type ranges and callee postconditions")
 				continue
 			}
 			// lift to a precondition over the parameters?
@@ -351,7 +368,7 @@ func (a *a6) bounds() {
 			g0 := o2.mk(pv, &f0)
 			if a.liftable(fn) && paramOnly(fn, g0) {
 				a.pre[fn] = append(a.pre[fn], preCond{desc: okey, pos: o.in.Pos(), mk: func(pv2 *prover, args []ssa.Value, facts *[]cons) []lin {
-					sub := &prover{db: pv2.db, fn: fn, canon: map[ssa.Value]ssa.Value{}, env: map[ssa.Value]lin{}, lenEnv: map[ssa.Value]lin{}, capEnv: map[ssa.Value]lin{}, depth: pv2.depth + 1}
+					sub := &prover{db: pv2.db, fn: fn, canon: map[ssa.Value]ssa.Value{}, env: map[ssa.Value]lin{}, lenEnv: map[ssa.Value]lin{}, capEnv: map[ssa.Value]lin{}, depth: pv2.depth + 1, peelConv: pv2.peelConv}
 					for i, par := range fn.Params {
 						if i >= len(args) {
 							break
@@ -386,9 +403,17 @@ func (a *a6) bounds() {
 					continue
 				}
 			}
-			if r := findRow(a.rows, "bounds", okey); r != nil {
+			rk := "bounds"
+			if a.rowKind != "" {
+				rk = a.rowKind
+			}
+			if r := findRow(a.rows, rk, okey); r != nil {
 				r.used = true
 				c.Pass(a.ruleName(), okey, pos, "reviewed: "+r.reason)
+				continue
+			}
+			if a.failMsg != nil {
+				c.Fail(a.ruleName(), okey, pos, a.failMsg(o2, fn))
 				continue
 			}
 			c.Fail(a.ruleName(), okey, pos, fmt.Sprintf("cannot prove %s in bounds in %s: no dominating check implies 0 <= lo <= hi <= len", o.kind, FnName(fn)))
@@ -421,6 +446,7 @@ func (a *a6) bounds() {
 				caller := site.Parent()
 				siteNo[caller]++
 				pv := a.db.proverFor(caller)
+				pv.peelConv = a.peel
 				c.Func(FnName(caller))
 				for _, pc := range a.pre[f] {
 					total++
@@ -441,7 +467,7 @@ func (a *a6) bounds() {
 					if a.liftable(caller) && paramOnly(caller, g0) && round < 3 {
 						args0 := site.Common().Args
 						a.pre[caller] = append(a.pre[caller], preCond{desc: okey, pos: site.Pos(), mk: func(pv2 *prover, args []ssa.Value, facts *[]cons) []lin {
-							sub := &prover{db: pv2.db, fn: caller, canon: map[ssa.Value]ssa.Value{}, env: map[ssa.Value]lin{}, lenEnv: map[ssa.Value]lin{}, capEnv: map[ssa.Value]lin{}, depth: pv2.depth + 1}
+							sub := &prover{db: pv2.db, fn: caller, canon: map[ssa.Value]ssa.Value{}, env: map[ssa.Value]lin{}, lenEnv: map[ssa.Value]lin{}, capEnv: map[ssa.Value]lin{}, depth: pv2.depth + 1, peelConv: pv2.peelConv}
 							for i, par := range caller.Params {
 								if i >= len(args) {
 									break
@@ -461,7 +487,11 @@ func (a *a6) bounds() {
 						a.preDone[caller] = false
 						continue
 					}
-					if r := findRow(a.rows, "bounds", okey); r != nil {
+					rk2 := "bounds"
+					if a.rowKind != "" {
+						rk2 = a.rowKind
+					}
+					if r := findRow(a.rows, rk2, okey); r != nil {
 						r.used = true
 						c.Pass(a.ruleName(), okey, p.Pos(site.Pos()), "reviewed: "+r.reason)
 						continue
@@ -471,9 +501,12 @@ func (a *a6) bounds() {
 			}
 		}
 	}
-	if a.onlyPkg != "" {
+	switch {
+	case a.oblOf != nil:
+		a.nObl = total
+	case a.onlyPkg != "":
 		c.Floor(a.ruleName(), total, 60)
-	} else {
+	default:
 		c.Floor(a.ruleName(), total, 250)
 	}
 }
